@@ -21,13 +21,13 @@ LEVEL = "exploration"
 CASE_TIMEOUT = 2400
 RULE = ("generating parameters drawn from the stated family (base load 5-50, slopes 0.3-3 per degree, heating balance 45-58F, cooling balance 64-75F, "
         "heating-only / cooling-only / both / flat, no weekday or season effect, multiplicative noise <= 1%), synthetic weather years (mean 45-65F, "
-        "amplitude 18-30F, both hemispheres), 4+ timezones, daily current + legacy profiles and monthly-billed reads of the same year; draws that "
+        "amplitude 18-30F, both hemispheres), 4+ timezones, daily current + legacy profiles and monthly-billed reads of the same year, on a fresh model object or on one that was fitted on another in-family building before; draws that "
         "miss a premise (>= 30 days in each active regime, balance points >= 5F inside the range) are rejected and counted.  "
         "distinct_nontrivial = distinct (profile, kind, zone, rounded generating parameters) accepted fits with at least one active regime.")
 ASSUMPTIONS = ["normalised RMSE = RMSE(prediction - generating curve) / mean(generating curve) over the days with a prediction (billing: over complete calendar months, the resolution the building is billed at)",
                "the second weather year is a fresh draw with another mean / amplitude / noise, same timezone",
                "billing: the monthly-billed baseline is predicted on daily reporting data (the model is a daily curve)"]
-REQUIRED_REACH = {"fit.accepted": 12, "clause.baseline_nrmse": 12, "clause.second_year_nrmse": 12, "clause.absent_load": 6, "fit.steep_single_corner": 10, "fit.single_regime_default_profile": 40}
+REQUIRED_REACH = {"fit.accepted": 12, "clause.baseline_nrmse": 12, "clause.second_year_nrmse": 12, "clause.absent_load": 6, "fit.steep_single_corner": 10, "fit.single_regime_default_profile": 40, "fit.model_object_fitted_on_another_building_before": 8}
 
 VIOL = []
 
@@ -84,6 +84,9 @@ def gen_cases(tier, seed):
                    n=100000 + i, timeout=2400) for i in range(ns)]
     # single-regime buildings under the default profile: the reduction of the full model to a one-sided one has several
     # data-dependent branches (zero slope on the idle side, smoothing under / over its 1% cut), each met by a fraction of such buildings
+    for c in cases:
+        if c["n"] % 3 == 1:
+            c["reuse"] = True            # the model object was fitted on another building first
     nr = 64 if q else 400
     cases += [dict(kind="fit", profile="current", usage=["heating", "cooling"][i % 2], tz=zones[(i // 2) % len(zones)], n=300000 + i, timeout=2400) for i in range(nr)]
     cases += [dict(kind="fit", profile="current", usage="cooling", tz="America/Chicago", directed=d, n=200000 + d, timeout=2400) for d in ((4,) if q else (4, 0, 1, 2, 3, 5, 6, 7))]
@@ -119,6 +122,25 @@ def run_case(spec):
     if spec.get("directed"):
         noise = 0.01
         y = y_true * (1 + 0.01 * np.random.default_rng(spec["directed"] + 1000).uniform(-1, 1, len(y_true)))
+    def earlier_building(model):
+        """fleet processing: the same model object was fitted on ANOTHER in-family building before (other regime, other scale)"""
+        r2 = np.random.default_rng([spec["seed"], 1500, spec["n"]])
+        k2 = {"both": "heating", "heating": "cooling", "cooling": "heating", "flat": "both"}[kind]
+        T_o, p_o, _ = draw(r2, k2, idx)
+        if T_o is None:
+            return model
+        p_o["base"] = p_o["base"] * 4.0
+        y_o = curve(T_o, p_o) * (1 + r2.normal(0, 0.005, len(T_o)))
+        d_o = pd.DataFrame({"temperature": T_o, "observed": y_o}, index=idx)
+        if prof == "billing":
+            d_o.loc[~np.isin(np.arange(len(d_o)), np.arange(0, len(d_o), 30)), "observed"] = np.nan
+            d_o.loc[d_o["observed"].notna(), "observed"] *= 30
+            model.fit(em.BillingBaselineData(d_o.iloc[:331], is_electricity_data=True), ignore_disqualification=True)
+        else:
+            model.fit(em.DailyBaselineData(d_o, is_electricity_data=True), ignore_disqualification=True)
+        I.reach("fit.model_object_fitted_on_another_building_before")
+        return model
+    reuse = bool(spec.get("reuse"))
     if prof == "billing":
         steps = []
         while sum(steps) < 365 - 33:
@@ -131,13 +153,13 @@ def run_case(spec):
             obs.iloc[a] = y[a:b].sum()
         df = pd.DataFrame({"temperature": T, "observed": obs.values}, index=idx).iloc[:starts[-1]]
         data = em.BillingBaselineData(df, is_electricity_data=True)
-        m = em.BillingModel().fit(data, ignore_disqualification=True)
+        m = (earlier_building(em.BillingModel()) if reuse else em.BillingModel()).fit(data, ignore_disqualification=True)
         mk_rep = lambda d: em.BillingReportingData(d, is_electricity_data=True)
         used = slice(0, starts[-1])
     else:
         df = pd.DataFrame({"temperature": T, "observed": y}, index=idx)
         data = em.DailyBaselineData(df, is_electricity_data=True)
-        m = FT.make_daily_model(prof).fit(data, ignore_disqualification=True)
+        m = (earlier_building(FT.make_daily_model(prof)) if reuse else FT.make_daily_model(prof)).fit(data, ignore_disqualification=True)
         mk_rep = lambda d: em.DailyReportingData(d, is_electricity_data=True)
         used = slice(0, 365)
     I.reach("fit.accepted")
